@@ -10,7 +10,7 @@
                          exists rest, remaining_ccs g s' = Some rest /\ decomp_ok F (c :: rest)
    [decomp_ok] is the decomposition predicate of Proofs/Decomp.v. *)
 From Coq Require Import List Arith Bool Lia Permutation ZifyBool.
-From Crusta Require Import Spec.AF Spec.SemFacts Model.Store Model.Graph.
+From Crusta Require Import Spec.AF Spec.SemFacts Model.Store Model.Graph Model.Solvers.
 From Crusta Require Import Proofs.StoreBase Proofs.Decomp Proofs.EncSpec Proofs.StoreProofs.
 Import ListNotations.
 
@@ -757,6 +757,14 @@ Proof.
   - intros a b. reflexivity.
 Qed.
 
+(* every component of a valid decomposition is compact, so its own view is consistent (the
+   solvers recurse on [view_of_af (c_af c)]) *)
+Corollary comp_view_ok : forall F ccs c, decomp_ok F ccs -> In c ccs ->
+  view_ok (view_of_af (c_af c)) (c_af c).
+Proof.
+  intros F ccs c Hd Hc. apply (view_of_af_ok _ (length (c_ids c))). exact (d_compact _ _ Hd c Hc).
+Qed.
+
 (* the framework a store denotes *)
 Definition af_of {L} (f : fw L) : af := {| args := live_ids L f; atts := iter_attacks L f |}.
 
@@ -896,6 +904,52 @@ Proof.
 Qed.
 
 (* ------------------------------------------------------------------ *)
+(** * Translating arguments into a component (cc_local / locals of Model/Solvers.v) *)
+
+Lemma cc_local_Some : forall c a i, NoDup (c_ids c) ->
+  (cc_local c a = Some i <-> i < length (c_ids c) /\ cc_global c i = a).
+Proof.
+  intros c a i Hnd. unfold cc_local, cc_global. split.
+  - apply index_of_Some.
+  - intros [Hi <-]. apply index_of_nth; assumption.
+Qed.
+
+Lemma cc_local_None : forall c a, cc_local c a = None <-> ~ In a (c_ids c).
+Proof.
+  intros c a. unfold cc_local. split.
+  - intros H Hin. destruct (index_of_In _ _ Hin) as [i Hi]. congruence.
+  - intros H. destruct (index_of (c_ids c) a) as [i|] eqn:E; [|reflexivity]. exfalso. apply H.
+    destruct (index_of_Some _ _ _ E) as [H1 H2]. rewrite <- H2. apply nth_In. exact H1.
+Qed.
+
+Lemma locals_ok : forall c al, (forall a, In a al -> In a (c_ids c)) ->
+  exists l, locals c al = Some l /\ map (cc_global c) l = al /\
+            forall i, In i l -> i < length (c_ids c).
+Proof.
+  intros c al. induction al as [|a r IH]; intros Hal.
+  - exists []. split; [reflexivity|]. split; [reflexivity | intros i []].
+  - destruct IH as [l [Hl [Hmap Hlt]]]; [intros a0 H; apply Hal; right; exact H|].
+    destruct (index_of_In _ _ (Hal a (or_introl eq_refl))) as [i Hi].
+    exists (i :: l). unfold locals in *. cbn [fold_right]. rewrite Hl. unfold cc_local. rewrite Hi.
+    destruct (index_of_Some _ _ _ Hi) as [H1 H2].
+    split; [reflexivity|]. split; [cbn [map]; unfold cc_global at 1; rewrite H2, Hmap; reflexivity|].
+    intros j [<-|Hj]; [exact H1 | exact (Hlt j Hj)].
+Qed.
+
+(** (T2') as used by the solvers: the merged component also translates the query arguments *)
+Corollary merged_locals_ok : forall g F al, view_ok g F ->
+  (forall a, In a al -> In a (args F)) ->
+  exists s' c l, merged_cc_of g (cc_new g) al = Some (s', c) /\
+    locals c al = Some l /\ map (cc_global c) l = al /\
+    (forall i, In i l -> i < length (c_ids c)) /\
+    exists rest, remaining_ccs g s' = Some rest /\ decomp_ok F (c :: rest).
+Proof.
+  intros g F al Hv Hal. destruct (merged_cc_ok g F al Hv Hal) as [s' [c [H1 [H2 H3]]]].
+  destruct (locals_ok c al H2) as [l [Hl [Hmap Hlt]]]. exists s', c, l.
+  split; [exact H1|]. split; [exact Hl|]. split; [exact Hmap|]. split; [exact Hlt | exact H3].
+Qed.
+
+(* ------------------------------------------------------------------ *)
 (** * The hypotheses are satisfiable; the statements on concrete inputs *)
 
 (* a hand-built view with sparse ids (2,5,7,9 live below max id 11), a self-attack, a duplicate
@@ -946,10 +1000,12 @@ Qed.
 (* ------------------------------------------------------------------ *)
 Print Assumptions view_of_af_ok.
 Print Assumptions view_of_fw_ok.
+Print Assumptions comp_view_ok.
 Print Assumptions all_ccs_ok.
 Print Assumptions merged_cc_ok.
 Print Assumptions all_ccs_classes.
 Print Assumptions merged_cc_exact.
+Print Assumptions merged_locals_ok.
 Print Assumptions all_ccs_compact_ok.
 Print Assumptions merged_cc_compact_ok.
 Print Assumptions all_ccs_store_ok.
